@@ -25,6 +25,9 @@ Expression nodes (tuples, see gen/expr_gen.py for the generator):
     ("sel", arg, ((key, e),...), default|None)      select_with ; key = value of arg's type
     ("anyall", fn, (e,...))  ("anyvec", fn, x)  ("tobool", x)
     ("aidx", arr, i)  ("aidxrt", arr, e)
+    ("conv", form, dst_type, x)   conversion of x to dst_type by assignment / construction; form in
+                                  assign (port <<= x) signal (Signal[D](x)) variable (Variable[D](x))
+                                  temporary (Temporary[D](x)) varassign (v = Variable[D](); v @= x)
 
 Three outcomes for (expression, valuation):
     a value            the documented value
@@ -253,7 +256,7 @@ def typeof(node):
     if k == "part":
         fn, x, count, rest = node[1], node[2], node[3], node[4]
         t = typeof(x)
-        if not is_vec(t) or fn not in ("msb", "lsb"):
+        if not is_vec(t) or fn not in ("msb", "lsb", "left", "right"):
             raise IllTyped("part")
         if count is None and rest is None:
             return BIT
@@ -311,6 +314,11 @@ def typeof(node):
         if not is_vec(typeof(node[2])):
             raise IllTyped("anyvec")
         return BOOL
+    if k == "conv":
+        src, dst = typeof(node[3]), node[2]
+        if not convertible(src, dst) or is_lit(node[3]):
+            raise IllTyped(f"conversion {src} -> {dst}")
+        return dst
     if k == "aidx":
         t = typeof(node[1])
         if t[0] != "arr" or not (0 <= node[2] < t[2]):
@@ -323,6 +331,23 @@ def typeof(node):
             raise IllTyped("aidxrt")
         return t[1]
     raise IllTyped(f"unknown node {k}")
+
+
+def convertible(src, dst):
+    """conversions on assignment / construction with a documented, value preserving meaning
+    (Unsigned._assign / Signed._assign / __init__ signatures; upstream test_assignment_0x, test_signed_0x)"""
+    if src in (BIT, BOOL) and dst in (BIT, BOOL):
+        return True
+    if not (is_vec(src) and is_vec(dst)):
+        return False
+    ks, ws, kd, wd = src[0], src[1], dst[0], dst[1]
+    if ks == kd:
+        return wd >= ws if ks in ("u", "s") else wd == ws
+    if ks == "u" and kd == "s":
+        return wd > ws  # by value; needs one more bit
+    if ks == "s" and kd == "u":
+        return False
+    return wd == ws  # BitVector <-> Unsigned/Signed: same width, bit pattern
 
 
 def truth_ok(t):
@@ -483,10 +508,11 @@ def evaluate(node, env):
         if v is OPEN:
             return OPEN
         w = t[1]
+        high = fn in ("msb", "left")  # all vectors of the alphabet are `downto`: the left end is the msb
         if count is None and rest is None:
-            return (v >> (w - 1)) & 1 if fn == "msb" else v & 1
+            return (v >> (w - 1)) & 1 if high else v & 1
         n = count if count is not None else w - rest
-        return (v >> (w - n)) & mask(n) if fn == "msb" else v & mask(n)
+        return (v >> (w - n)) & mask(n) if high else v & mask(n)
     if k == "view":
         return evaluate(node[2], env)
     if k == "resize":
@@ -521,6 +547,18 @@ def evaluate(node, env):
         if v is OPEN:
             return OPEN
         return (v != 0) if node[1] == "any" else (v == mask(t[1]))
+    if k == "conv":
+        src, dst = typeof(node[3]), node[2]
+        v = evaluate(node[3], env)
+        if v is OPEN:
+            return OPEN
+        if dst == BOOL:
+            return truth(src, v)
+        if dst == BIT:
+            return 1 if truth(src, v) else 0
+        if is_num(src) and is_num(dst):
+            return wrap(dst, num(src, v))  # by value: zero extension of Unsigned, sign extension of Signed
+        return v  # same width: the bit pattern
     if k == "aidx":
         v = evaluate(node[1], env)
         return v[node[2]]
